@@ -537,7 +537,7 @@ def srv_dist(rs):
         cfg = t[0].split()
         ops = [o.strip() for o in t[1:]]
         d[cfg[1]] += 1
-        d["graceful"] += cfg[2] != "0"; d["completed_future_kept_alive"] = d.get("completed_future_kept_alive", 0) + (cfg[2] == "2"); d["raw_acceptor"] += cfg[3] == "raw"; d["makefail"] += cfg[4] != "-"
+        d["graceful"] += cfg[2] != "0"; d["completed_future_kept_alive"] = d.get("completed_future_kept_alive", 0) + (cfg[2] == "2"); d["raw_acceptor"] += cfg[3] == "raw"; d["tls_acceptor"] = d.get("tls_acceptor", 0) + (cfg[3] == "tls"); d["makefail"] += cfg[4] != "-"
         d["with_signal"] += "signal" in ops
         d["with_cancelled_connect"] += any(o.startswith("connx") for o in ops)
         d["with_garbage"] += any(o.endswith("garbage") for o in ops)
@@ -580,7 +580,7 @@ SRVK_RULE = (" | srvk: the real Server (HTTP/1 or auto) on kernel and TLS accept
 SRV_RULE = ("op sequences (connect, connect-then-give-up, complete / partial / rest-of / garbage request, partial HTTP/2 preface, "
             "handler release, client disconnect, shutdown signal, listener loss) for up to 4 raw clients against the real Server "
             "(HTTP/1 or auto-detecting; without graceful shutdown, with it and the future awaited by value, with it and the completed "
-            "future kept alive; raw DuplexIncoming or Acceptor-wrapped; make-service "
+            "future kept alive; raw DuplexIncoming, Acceptor-wrapped, or wrapped with TLS (clients handshake with their first send and tell a closed TLS session from an ended transport); make-service "
             "failing at the k-th connection) under the paused clock, with all tasks run to quiescence after every op; ends with a "
             "well-behaved probe client. non-trivial = at least 2 connections")
 SRV_ASSUMES = ["hyper's HTTP/1 server connection: one exchange at a time; after graceful_shutdown it finishes the exchange it "
@@ -832,8 +832,21 @@ PROPS = {
         "streams": [
             {"name": "sniff", "quick": 5000, "thorough": 200000, "sep": None, "head": 1, "unit": 1,
              "exhaustive": "sniff-exhaustive", "nontrivial": sniff_nontrivial, "distribution": sniff_dist},
+            {"name": "autocmp", "quick": 600, "thorough": 30000, "head": 4, "unit": 1, "batch": 5000,
+             "nontrivial": lambda r: len(r["input"].split()) > 6 or r["input"].split()[-1] in ("1", "2", "3", "5", "7"),
+             "distribution": lambda rs: {"cases": len(rs), "write_buffering_io": sum(r["input"].split()[1] == "1" for r in rs),
+                 "upgrade_requests": sum(r["input"].split()[2] == "1" for r in rs),
+                 "http2_scripts": sum("ref=h2" in r["obs"] for r in rs), "one_byte_at_a_time": sum(r["input"].split()[5:] == ["1"] for r in rs),
+                 "answers_identical": sum("same=1" in r["obs"] for r in rs)}},
         ],
-        "rule": "byte streams (valid HTTP/1 requests, preface+frames, strict prefixes of the preface + EOF, prefix + diverging byte, "
+        "rule": "autocmp: the same client byte script (13 HTTP/1 requests incl. bodies, chunked, HEAD, pipelining, HTTP/1.0, Connection: close, "
+                "request lines beginning like the preface, garbage; an Upgrade request followed by bytes on the upgraded stream; the HTTP/2 "
+                "preface + SETTINGS + HEADERS) cut into chunks (whole, one byte at a time, fixed, cycled lists around the 24-byte mark) is "
+                "played against AutoBuilder and against the single-protocol builder it must behave like, both through server::Protocol::"
+                "serve_connection_with_upgrades with the same handler, over a pipe whose server end optionally holds writes back until "
+                "flushed; what comes back (until 200 virtual ms of silence) is compared after removing the Date header / reducing HTTP/2 "
+                "header blocks to their first byte; the model (readVersion on the script as cut) says which single-protocol server is the "
+                "reference | byte streams (valid HTTP/1 requests, preface+frames, strict prefixes of the preface + EOF, prefix + diverging byte, "
                 "corrupted preface, request lines sharing a prefix with the preface, random bytes) x chunkings (whole, 1 byte, tiny, "
                 "arbitrary) x pendings x EOF/error endings x read capacities {0,1,2,3,5,8,24,64} through the real ReadVersion (hook) "
                 "and Rewind; thorough adds all <=3-cut compositions of the first 32 bytes of 4 key streams. non-trivial = stream "
